@@ -221,7 +221,14 @@ for _q in ["q=example.com%2Fx", "q=http%3A%2F%2Fexample.com", "q=", "v=abc&q=exa
         YOUTUBE_URLS.append(_h + _q)
 
 
+UNPARSEABLE_REDIRECTS = ["http://[x/?u=/p", "http://a]b.com/?url=/x", "http://[::1/?next=%2Fy", "[?u=/p", "http://h/?u=http://[x/", "//[?l=/z#["]
+
+
 def _panel(acc, shard, nshards, seed, tier):
+    for i, s in enumerate(UNPARSEABLE_REDIRECTS):
+        if i % nshards == shard:
+            case = {"kind": "redirect", "s": s}
+            acc.check(case, True, ["unparseable-with-relative-target"])
     for i, s in enumerate(CACHE_URLS + YOUTUBE_URLS):
         if i % nshards != shard:
             continue
